@@ -2,3 +2,4 @@ pub mod ast;
 pub mod build;
 pub mod run;
 pub mod val;
+pub mod hist;
